@@ -116,6 +116,15 @@ def check(run):
                 return
     run.need(cf is not None, "Algorithm L: no skip-counter field found in the constructor")
     run.ok("FORMULA", "L.next0", f"self.{cf} = size + floor(log U' / log(1 - W0)) + 1, U' distinct from U")
+    if arrivals is None:
+        from .storagelib import partial_counter
+        pc = partial_counter(prog, cls, s, ps)
+        if pc is not None and any(("field0", pc[0]) in ir.subterms(g) for p in ps for g in p.guards):
+            gtxt = " & ".join(ir.show_nl(g) for g in pc[1]) or "some path"
+            run.fail("FORMULA", "L.count", f"{s.path}:{s.fn.lineno}", fq, f"self.{pc[0]} not advanced under [{gtxt}]",
+                     f"the skip target is an absolute arrival index, so every arrival must advance the arrival counter; "
+                     f"self.{pc[0]} is not incremented on the path [{gtxt}] (acceptances then happen late)")
+            return
     run.need(arrivals is not None, "no arrivals counter (field incremented exactly once at the top of every path)")
     a1 = op("+", ("field0", arrivals), ("const", 1))
     k = ("field0", "size")
